@@ -28,7 +28,7 @@ pub fn def() -> PropDef {
                overflowing the type / 40 digits, DIMACS literal or group beyond the declared count, variable count \
                above the type's maximum, AIGER literal above 2M+1, odd or zero defined literal, symbol index \
                beyond its section, fused tokens, invalid UTF-8 inside a symbol name, unknown or misspelt BTOR2 \
-               keyword, zero node id, multi-byte binary AIGER delta code above its reference code, AIGER number with leading zeros), parsed one-shot and under a generated feed: the error's line must be the \
+               keyword, zero node id, multi-byte binary AIGER delta code above its reference code, AIGER number with leading zeros, DIMACS literal at the minimum of a signed integer type), parsed one-shot and under a generated feed: the error's line must be the \
                token's line and its column must lie on the corrupted token; one case in four is repeated behind a 1..23-byte \
                preamble that the caller consumes before LineReader::new (line 1 starts at the current position). Part C \
                (LineReader used directly): a hand-written word scanner over generated lines (words of 1..3000 bytes, so \
@@ -190,7 +190,7 @@ pub fn check_bounds(c: &BoundsCase, obs: &mut Obs) -> CheckResult {
 // ---------------------------------------------------------------------------------------------
 // Part B
 
-pub const CORRUPTIONS: [&str; 17] = [
+pub const CORRUPTIONS: [&str; 18] = [
     "garbage-token",
     "digits-then-garbage",
     "overflow-40-digits",
@@ -208,6 +208,7 @@ pub const CORRUPTIONS: [&str; 17] = [
     "aiger-latch-init-invalid",
     "aiger-binary-delta-too-large",
     "aiger-leading-zero",
+    "dimacs-literal-at-type-minimum",
 ];
 
 #[derive(Serialize, Deserialize, Clone, Debug, PartialEq, Eq, Hash)]
@@ -391,7 +392,12 @@ fn corrupt(c: &ExactCase) -> Option<Corrupted> {
                 .collect();
             let t = pick_tok(&defs, c.pick)?;
             let old: u128 = std::str::from_utf8(&bytes[t.start..t.end]).ok()?.parse().ok()?;
-            let s = if c.arg % 2 == 0 { "0".to_string() } else { (old | 1).to_string() };
+            // constant false, constant true, or the negated literal of the variable
+            let s = match c.arg % 3 {
+                0 => "0".to_string(),
+                1 => "1".to_string(),
+                _ => (old | 1).to_string(),
+            };
             Some(replace(bytes, t, s.as_bytes()))
         }
         "aiger-symbol-index-beyond-section" => {
@@ -508,6 +514,29 @@ fn corrupt(c: &ExactCase) -> Option<Corrupted> {
                 }
             };
             Some(replace(bytes, t, &with))
+        }
+        "dimacs-literal-at-type-minimum" => {
+            // -2^63 (and neighbours, and the narrower types' minima): representable while scanning,
+            // not a literal - with and without a declared variable count
+            let Doc::Dimacs(d) = &c.doc else { return None };
+            let first_clause_item = d.header.is_some() as usize;
+            let lits: Vec<&Tok> = r
+                .toks
+                .iter()
+                .filter(|t| t.role == Role::Num && t.item >= first_clause_item && t.item != usize::MAX)
+                .filter(usable)
+                .filter(|t| {
+                    d.kind == ParserId::Cnf
+                        || r.toks.iter().find(|u| u.item == t.item && u.role == Role::Num).map(|u| u.start) != Some(t.start)
+                })
+                .collect();
+            let t = pick_tok(&lits, c.pick)?;
+            let s = ["-9223372036854775808", "-9223372036854775809", "9223372036854775808", "-2147483648", "-32768", "-128"][c.arg as usize % 6];
+            let v: i128 = s.parse().ok()?;
+            if v.abs() <= spec.max_dimacs() {
+                return None;
+            }
+            Some(replace(bytes, t, s.as_bytes()))
         }
         "aiger-leading-zero" => {
             // AIGER numbers are written without leading zeros: "07", "00" are rejected on the token
